@@ -30,11 +30,34 @@ pub mod gen_c02;
 pub mod gen_c01;
 #[cfg(all(kani, feature = "prop_c05"))]
 pub mod gen_c05;
+#[cfg(all(kani, feature = "prop_c03"))]
+pub mod gen_c03;
+#[cfg(all(kani, feature = "prop_c11"))]
+pub mod gen_c11;
+#[cfg(all(kani, feature = "prop_c12"))]
+pub mod gen_c12;
+#[cfg(all(kani, feature = "prop_c13"))]
+pub mod gen_c13;
+#[cfg(all(kani, feature = "prop_c07"))]
+pub mod gen_c07;
+#[cfg(all(kani, feature = "prop_c09"))]
+pub mod gen_c09;
+#[cfg(all(kani, feature = "prop_c06"))]
+#[macro_use]
+pub mod c06;
+#[cfg(all(kani, feature = "prop_c06"))]
+pub mod gen_c06;
 #[cfg(all(kani, feature = "prop_c10"))]
 pub mod gen_c10;
 #[cfg(all(kani, feature = "prop_c18"))]
 pub mod gen_c18;
 
+#[cfg(all(kani, feature = "prop_c14"))]
+pub mod c14;
+#[cfg(all(kani, feature = "prop_c15"))]
+pub mod c15;
+#[cfg(all(kani, feature = "prop_c08"))]
+pub mod c08;
 #[cfg(all(kani, feature = "prop_c17"))]
 pub mod c17;
 
